@@ -1,6 +1,6 @@
 (* Order.v — order.go: checkOrder, and the constructors' accept/reject decision (C12). Definitions only. *)
 From Coq Require Import ZArith.
-Open Scope Z_scope.
+Local Open Scope Z_scope.
 
 (* Go: order >= 2 && order&(order-1) == 0 on a 64-bit int. For order >= 2 both operands of & are
    non-negative, where Go's & on two's complement and Z.land agree; for order < 2 the && short-circuits. *)
